@@ -217,9 +217,18 @@ pub struct TransferStats {
     pub audios_served: Vec<Uuid>,
     /// downloads requested and not yet applied: (class 0 mesh / 1 image / 2 audio, id, downloads under way)
     pub pending: Vec<(u8, Uuid, usize)>,
-    /// downloads that have arrived, all so far in order of arrival: (class, id, number of the request,
-    /// dropped because a download of a later request had arrived before)
-    pub arrivals: Vec<(u8, Uuid, u64, bool)>,
+    /// every step of the registry of pending downloads so far, in the order in which the steps took their
+    /// lock: (step, class, id, number of the request, flag). Steps: 0 request; 1 a download has arrived
+    /// (flag: dropped, a download of a later request had arrived before); 2 a download thread is over
+    /// (flag: the registry entry was removed); 3 process_*_assets took the arrived bytes; 4 ... has
+    /// applied them (flag: the registry entry was removed)
+    pub registry_log: Vec<(u8, u8, Uuid, u64, bool)>,
+}
+
+pub(crate) type RegistryLog = std::sync::Arc<std::sync::Mutex<Vec<(u8, u8, Uuid, u64, bool)>>>;
+
+pub(crate) fn log_registry(log: &RegistryLog, step: u8, key: (u8, Uuid), number: u64, flag: bool) {
+    log.lock().unwrap().push((step, key.0, key.1, number, flag));
 }
 
 pub fn transfer_stats(world: &World) -> Option<TransferStats> {
